@@ -1253,6 +1253,19 @@ def run(prop, tier, seed):
                     small = shrink(prog, make_fails(prop, binary, driver, kind), max_iter=250 if tier == "quick" else 600)
                     path = save_replay(prop, "%s_%s" % (kind, name), small, "%s: %s" % (kind, detail))
                     violations.append((kind, name, path, detail))
+    # --- C16, thorough tier: the same cases under AddressSanitizer / LeakSanitizer
+    san_info = None
+    if prop == "C16" and tier == "thorough" and okm and okh:
+        allres, allcases = {}, []
+        for bname, cases, res, summ in batches:
+            allres.update(res)
+            allcases += [(n, p) for n, p in cases if res[n].get("verdict") == "ok"]
+        san_info, san_found = sanitizer_tier(driver, allcases, allres)
+        if not san_info.get("built"):
+            problems.append("sanitizer build failed: " + san_info.get("log", ""))
+        for name, prog, rep in san_found[:2]:
+            path = save_replay(prop, "asan_%s" % name, prog, "sanitizer report: " + rep.replace("\n", " | ")[:800])
+            violations.append(("mon", name, path, "AddressSanitizer/LeakSanitizer report"))
     # --- verdict
     known = findings_for(prop)
     for fid, f in sorted(known.items()):
@@ -1295,6 +1308,7 @@ def run(prop, tier, seed):
         samples=samples, distribution=dist,
         skipped_ambiguous_timer_order=summ_all["ambig"], model_out_of_fuel=summ_all["fuel"],
         known_finding_cases=dict((k, len(v)) for k, v in known_seen.items()),
+        sanitizer=san_info,
         theorem=CLAIM[prop]["proved"], theorem_is_partial=CLAIM[prop]["partial"], not_proved=CLAIM[prop]["missing"],
         problems=problems, violations_detail=[dict(kind=k, case=n, replay=p, detail=d) for k, n, p, d in violations][:10],
     ))
@@ -1333,3 +1347,192 @@ def replay(prop, path):
     for fid, names in summ["known"].items():
         vlib.known_finding(prop, "class=%s reproduced by %s" % (fid, ",".join(names)))
     return rc
+
+
+# --------------------------------------------------------------------------------------------------
+# C16 sanitizer tier (thorough only): the same interpreter under AddressSanitizer / LeakSanitizer
+
+ASAN_TARGET = "x86_64-unknown-linux-gnu"
+
+
+def build_asan():
+    return build_harness(toolchain="nightly", target=ASAN_TARGET, tag="asan", extra_rustflags="-Zsanitizer=address")
+
+
+def _asan_run(binary, cases, tag, leaks):
+    os.makedirs(WORK, exist_ok=True)
+    cf_ = os.path.join(WORK, "asan-%s.cases" % tag)
+    with open(cf_, "w") as f:
+        for name, prog in cases:
+            f.write(ser_case(name, prog))
+    env = {"ASAN_OPTIONS": "detect_leaks=%d:abort_on_error=0:halt_on_error=1:detect_stack_use_after_return=1" % (1 if leaks else 0),
+           "LSAN_OPTIONS": "exitcode=23", "RUST_BACKTRACE": "0"}
+    rc, out = vlib.run([binary, cf_], timeout=1800, env=env)
+    report = None
+    if "ERROR: AddressSanitizer" in out or "ERROR: LeakSanitizer" in out or rc not in (0,):
+        i = out.find("ERROR: ")
+        report = out[i:i + 1500] if i >= 0 else "exit code %d: %s" % (rc, out[-600:])
+    return rc, out, report
+
+
+def _asan_find(binary, cases, leaks):
+    """Locate one case that makes the sanitizer report (bisection over the batch)."""
+    lo = list(cases)
+    while len(lo) > 1:
+        half = lo[:len(lo) // 2]
+        _, _, rep = _asan_run(binary, half, "bisect-%d" % os.getpid(), leaks)
+        lo = half if rep else lo[len(lo) // 2:]
+    return lo[0] if lo else None
+
+
+def sanitizer_tier(driver, cases, results):
+    """-> (info dict, list of (case name, prog, report))"""
+    ok, binary, log = build_asan()
+    if not ok:
+        return dict(built=False, log=log[-1500:]), []
+    clean, leaky = [], []
+    for name, prog in cases:
+        r = results.get(name)
+        if not r or not r.get("model") or r["model"]["status"] != "done":
+            continue
+        if any(l.startswith("leak ") for l in r["model"]["lines"]):
+            leaky.append((name, prog))
+        else:
+            clean.append((name, prog))
+    found = []
+    info = dict(built=True, clean_cases=len(clean), leaky_cases=len(leaky), shards=0)
+    import concurrent.futures as cf
+    shards = chunks(clean, vlib.NCPU) if clean else []
+    with cf.ThreadPoolExecutor(max_workers=vlib.NCPU) as ex:
+        futs = [ex.submit(_asan_run, binary, sh, "c%d" % i, True) for i, sh in enumerate(shards)]
+        for fu, sh in zip(futs, shards):
+            rc, out, rep = fu.result()
+            info["shards"] += 1
+            if rep:
+                bad = _asan_find(binary, sh, True)
+                if bad:
+                    found.append((bad[0], bad[1], rep))
+    # programs for which the model itself predicts unreleased objects (known classes F4/F5/F7 and closures parked
+    # after the last Stakker): memory errors still count, leak reports do not
+    if leaky:
+        rc, out, rep = _asan_run(binary, leaky, "leaky", False)
+        if rep:
+            bad = _asan_find(binary, leaky, False)
+            if bad:
+                found.append((bad[0], bad[1], rep))
+    # sanity: LeakSanitizer does see the known F5 leak (otherwise the tier would be blind)
+    wit = [(n, p) for n, p, fn in load_corpus() if n == "F5_prep_held"]
+    if wit:
+        rc, out, rep = _asan_run(binary, wit, "f5", True)
+        info["f5_leak_reported_by_lsan"] = bool(rep and "LeakSanitizer" in rep)
+    return info, found
+
+
+# --------------------------------------------------------------------------------------------------
+# plug-in for tools/checks/layer_cfg.py (C18): the runtime interpreter under every feature configuration
+
+def cfg_deferrer_kind(features):
+    f = set(features)
+    if "inline-deferrer" in f or "multi-stakker" in f:
+        return "inline"
+    if "multi-thread" in f:
+        return "thread-local"
+    if "no-unsafe" in f:
+        return "inline"
+    return "global"
+
+
+def _prefix_to_first_drop(lines):
+    out = []
+    for l in lines:
+        if l.startswith("leak "):
+            continue
+        out.append(l)
+        if l == "dropend":
+            break
+    return out
+
+
+def cfg_compare(features, real, model):
+    """-> None if the real trace of this configuration equals the model trace under the rules of DESIGN 6/C18
+       (log events only with `logger`; with the inline deferrer only up to the end of the first Stakker::drop),
+       else (index, real line, model line)."""
+    if real is None:
+        return (0, "no trace", "")
+    if real["status"] != "done":
+        return (0, "status %s %s" % (real["status"], [l for l in real["lines"] if l.startswith("panic")][:1]), "done")
+    has_log = "logger" in features
+    a = canon(real["lines"], drop_log=not has_log)
+    b = canon(model["lines"], drop_log=not has_log)
+    if cfg_deferrer_kind(features) == "inline":
+        a, b = _prefix_to_first_drop(a), _prefix_to_first_drop(b)
+    i = first_diff(a, b)
+    if i < 0:
+        return None
+    return (i, a[i] if i < len(a) else None, b[i] if i < len(b) else None)
+
+
+def cfg_check(cfgs, tier, seed):
+    """cfgs: [(name, features, no_default)].  Builds the interpreter under each configuration (4 at a time), runs the
+       corpus + generated programs under each, compares with the single model trace.
+       -> dict(diffs=[(cfg, case, index, real line, model line, program text)], programs, comparisons, build_s, ...)"""
+    import concurrent.futures as cf
+    t0 = time.time()
+    okm, driver, mlog = build_model()
+    if not okm:
+        return dict(diffs=[("model", "<build>", 0, "model build failed", mlog[-300:], "")], programs=0, comparisons=0, build_s=0)
+    built, blog = {}, {}
+
+    def build(c):
+        name, feats, nd = c
+        ok, binary, out = build_harness(features=list(feats) or None, no_default=nd, tag="cfg-" + name.replace("+", "_").replace("-", ""))
+        return name, ok, binary, out
+    with cf.ThreadPoolExecutor(max_workers=4) as ex:
+        for name, ok, binary, out in ex.map(build, cfgs):
+            built[name] = binary if ok else None
+            if not ok:
+                blog[name] = out[-600:]
+    build_s = time.time() - t0
+    diffs = [(name, "<build>", 0, "harness/r does not build under this configuration", blog[name], "") for name in blog]
+    n = 6000 if tier == "thorough" else 1200
+    cases, stats = gen_cases("C18", n, seed)
+    cases = [(nm, p) for nm, p, _ in load_corpus()] + cases
+    os.makedirs(WORK, exist_ok=True)
+    cfile = os.path.join(WORK, "cfg-%d.cases" % os.getpid())
+    with open(cfile, "w") as f:
+        for name, prog in cases:
+            f.write(ser_case(name, prog))
+    rc, mout = run_model(driver, cfile)
+    model = parse_traces(mout)
+    usable = [(nm, p) for nm, p in cases
+              if model.get(nm) and model[nm]["status"] == "done" and M_AMBIG not in model_flags(model[nm]["lines"])]
+
+    def one(c):
+        name, feats, nd = c
+        if built.get(name) is None:
+            return c, None
+        rc, out = run_real(built[name], cfile)
+        return c, parse_traces(out)
+    with cf.ThreadPoolExecutor(max_workers=vlib.NCPU) as ex:
+        results = list(ex.map(one, cfgs))
+    comparisons, equal, per_cfg = 0, 0, {}
+    for (name, feats, nd), real in results:
+        if real is None:
+            continue
+        bad = 0
+        for nm, prog in usable:
+            comparisons += 1
+            d = cfg_compare(feats, real.get(nm), model[nm])
+            if d is None:
+                equal += 1
+            else:
+                bad += 1
+                if bad <= 2:
+                    diffs.append((name, nm, d[0], d[1], d[2], ser_case(nm, prog)))
+        per_cfg[name] = dict(different=bad, deferrer=cfg_deferrer_kind(feats), logger=("logger" in feats))
+    if tier == "thorough" and not os.environ.get("VERIF_KEEP_TARGETS"):
+        for name, _, _ in cfgs:
+            shutil.rmtree(os.path.join(vlib.CACHE, "target-r-cfg-" + name.replace("+", "_").replace("-", "")), ignore_errors=True)
+    return dict(diffs=diffs, programs=len(usable), comparisons=comparisons, equal=equal, build_s=round(build_s, 1),
+                skipped_ambiguous_timer_order=len(cases) - len(usable), per_configuration=per_cfg, generator=stats,
+                total_s=round(time.time() - t0, 1))
